@@ -16,7 +16,9 @@ RULE = ("(tag name, declared datatype or none, Python value, vlevel 0-3, set() o
         "floats, mixed or out-of-range or empty arrays, empty/odd-length byte strings, strings with tab/newline/"
         "non-printables or empty, multi-character A, wrong Python type. Valid: declared-or-default datatype, "
         "written tag accepted by the independent grammar, re-parsed value equal with the same datatype, B written "
-        "with the smallest subtype. Invalid: reported by validate_field()/validate() at every level and by "
+        "with the smallest subtype; the same assignment on a line that belongs to a Gfa (for H: the Gfa's header) is "
+        "written with the same tag text by str(gfa) and read back equal from that document; deleting or retyping the "
+        "tag on a clone does not change how the original writes it. Invalid: reported by validate_field()/validate() at every level and by "
         "writing at level >= 2 (never a clean malformed line). non-trivial = boundary value, array, nested JSON "
         "or float with exponent; distinct by (datatype, repr(value), vlevel)")
 ASSUMPTIONS = [
@@ -229,6 +231,21 @@ def prop(case):
         here = line.get(name)
         if not values_equal(dt, spec, here) and not (here == value):
             raise Violation("get-after-set", "%s: get returns %r" % (ctx, here), dt)
+        _through_gfa(case, version, name, declared, existing, dt, spec, tag, ctx)
+        # what is done to a clone (same tag deleted, or given a value of another kind) does not
+        # change how the original writes its tag
+        try:
+            c = line.clone()
+            if case.get("clone_edit", "delete") == "delete":
+                c.delete(name)
+            else:
+                c.set(name, None)
+                c.set(name, "other" if dt != "Z" else 5)
+            tag2 = line.field_to_s(name, tag=True)
+        except Exception as e:
+            raise Violation("clone-step", "%s: clone / edit of the clone / writing the original raised %s: %s" % (ctx, type(e).__name__, str(e)[:200]), type(e).__name__)
+        if tag2 != tag:
+            raise Violation("written-after-clone-edit", "%s: written as %r, after editing a clone as %r" % (ctx, tag, tag2), dt)
     else:
         if raised_at_set is None and vlevel >= 3:
             raise Violation("invalid-not-reported-at-set", "%s: the assignment at vlevel 3 raised nothing" % ctx, dt)
@@ -261,6 +278,50 @@ def prop(case):
     nt = spec.get("boundary", False) or spec["kind"] in ("intlist", "floatlist", "mixedlist", "json", "bytes") or \
         (spec["kind"] == "float" and "e" in repr(spec["v"]))
     return {"nt": bool(nt), "dt": dt, "verdict": verdict, "vlevel": vlevel, "kind": spec["kind"]}
+
+
+def _through_gfa(case, version, name, declared, existing, dt, spec, tag, ctx):
+    """The same assignment on a line that belongs to a Gfa (for H: the Gfa's header), written
+    through the Gfa: the same tag text, read back equal from the written document."""
+    carrier = case["carrier"]
+    try:
+        g = gfapy.Gfa(version=version, vlevel=case["vlevel"])
+        for n_ in ("A", "B"):
+            g.add_line("S\t%s\t%s*" % (n_, "10\t" if version == "gfa2" else ""))
+        if carrier == "H":
+            target = g.header
+            if existing:
+                g.add_line("H\t%s:%s:%s" % (name, declared, existing))
+        elif carrier.startswith("S"):
+            target = g.segment("A")
+            if existing:
+                target.set_datatype(name, declared)
+                target.set(name, gfapy.Line(carrier + "\t%s:%s:%s" % (name, declared, existing), version=version).get(name))
+        else:
+            g.add_line(carrier + ("\t%s:%s:%s" % (name, declared, existing) if existing else ""))
+            target = [l for l in g.lines if l.record_type == carrier[0]][0]
+        if declared and not existing:
+            target.set_datatype(name, declared)
+        value = build_value(case["value"])
+        if case["via"] == "attr":
+            setattr(target, name, value)
+        else:
+            target.set(name, value)
+        text = str(g)
+    except Exception as e:
+        raise Violation("through-gfa", "%s: the same assignment on a line of a Gfa raised %s: %s" % (ctx, type(e).__name__, str(e)[:300]), "%s/%s" % (dt, type(e).__name__))
+    rt = carrier[0]
+    rows = [x.split("\t") for x in text.split("\n") if x.split("\t")[0] == rt]
+    if not any(tag in f for f in rows):
+        raise Violation("written-through-gfa", "%s: the line writes %r, the Gfa writes:\n%s" % (ctx, tag, text), "%s/%s" % (rt, dt))
+    try:
+        back = gfapy.Gfa(text, version=version, vlevel=max(case["vlevel"], 1))
+        bl = back.header if rt == "H" else [l for l in back.lines if l.record_type == rt and name in l.tagnames][0]
+        got, bdt = bl.get(name), bl.get_datatype(name)
+    except Exception as e:
+        raise Violation("reparse-gfa", "%s: document %r not re-parsable: %s: %s" % (ctx, text, type(e).__name__, str(e)[:200]), dt)
+    if bdt != dt or not values_equal(dt, spec, got):
+        raise Violation("read-back-gfa", "%s: read back %r (datatype %s) from the document\n%s" % (ctx, got, bdt, text), dt)
 
 
 B_EDGES = [-2 ** 31 - 1, -2 ** 31, -32769, -32768, -129, -128, -1, 0, 1, 127, 128, 255, 256, 32767, 32768, 65535, 65536,
@@ -308,7 +369,7 @@ def st_case(draw):
     if declared and gen.chance(r, 0.4):
         existing = gen.gen_tag_value(r, declared, True)
     case = {"value": spec, "name": gen.choice(r, NAMES), "declared": declared, "existing": existing,
-            "vlevel": r.randrange(4), "via": gen.choice(r, ["set", "attr"]), "carrier": gen.choice(r, CARRIERS)}
+            "vlevel": r.randrange(4), "via": gen.choice(r, ["set", "attr"]), "carrier": gen.choice(r, CARRIERS), "clone_edit": gen.choice(r, ["delete", "retype"])}
     if declared is None and gen.chance(r, 0.3):
         case["pre"] = gen.choice(r, [{"kind": "int", "v": 13}, {"kind": "float", "v": 1.5}, {"kind": "str", "v": "text"},
                                      {"kind": "json", "v": {"a": 1}}, {"kind": "intlist", "v": [1, 2], "wrap": "NumericArray"},
